@@ -560,7 +560,7 @@ def subst_eval(e, env):
     return None
 
 
-REPLAY_BIN = CACHE + '/replay-target/debug/replay'
+REPLAY_BIN = os.environ.get('VERIF_REPLAY_TARGET', CACHE + '/replay-target') + '/debug/replay'
 
 
 def native(reqs):
